@@ -3,11 +3,14 @@
 spec/ClientStore.tla is the oracle (operators store -> store, intended design; deviation S16 named separately).
  1. TLC checks MemEqDisk / ReloadFixpoint / AbandonExact / SharedBodies on MC_ClientStore with DEVIATIONS = {} (the intended
     design must have the property, otherwise exit 2); thorough: also with DEVIATIONS = {"S16"}, where a counterexample is expected.
- 2. TLC prints the labelled state graph (every (store, operation, successor) once, DEVIATIONS = {"S16"} so that an abandon has
-    the intended and the known-deviating successor); harness/store_rig walks it on the real WTClient over an on-disk SQLite
-    file: every (store, operation) pair the implementation can reach is executed on a client that was driven to that store,
-    memory / raw rows / load paths are compared with the specification's successor, a reload is one of the operations of every
-    store.  Additionally every operation sequence up to a small length is executed literally from an empty directory.
+ 2. spec -> impl: TLC prints the labelled state graph (every (store, operation, successor) once, DEVIATIONS = {"S16"} so that
+    an abandon has the intended and the known-deviating successor); harness/store_rig walks it on the real WTClient over an
+    on-disk SQLite file: every (store, operation) pair the implementation can reach is executed on a client that was driven to
+    that store, memory / raw rows / load paths are compared with the specification's successor, a reload is one of the
+    operations of every store.  Additionally every operation sequence up to a small length is executed literally from an empty
+    directory.
+ 3. impl -> spec: seeded random histories (more towers and locators, thousands of calls) are recorded by store_rig and judged
+    event by event by spec/Trace_ClientStore.tla; one corrupted cell must be rejected (binding self-test).
 """
 import hashlib
 import json
@@ -250,11 +253,15 @@ def finish_spec_to_impl(job, verdict, stats):
 
 def classify_tags(tags, trace, shape, verdict):
     kinds = {}
-    for t in tags:
+    first_real = min([t[0] for t in tags if t[1] != "HARNESS" and t[2] != "S16"] or [1 << 60])
+    for t in sorted(tags, key=lambda x: x[0]):
         line, who, what = t[0], t[1], t[2]
         kinds[what] = kinds.get(what, 0) + 1
         if who == "HARNESS":
-            raise ToolError("store_rig random made a call the plugin cannot make (%s, line %d of %s)" % (what, line, trace))
+            # the generator reads the real state: once that state is wrong (already reported) it may be confused
+            if line <= first_real:
+                raise ToolError("store_rig random made a call the plugin cannot make (%s, line %d of %s)" % (what, line, trace))
+            continue
         if what == "S16":
             verdict.disagree("AbandonExact+SharedBodies:S16", "watchtower-plugin/src/dbm.rs::remove_tower_record",
                              "abandon-last-reference-to-body",
@@ -392,7 +399,7 @@ def main(tier, replay_path=None):
         plan = [(dict(t2l2, max_ops=5), "t2l2o5", 3, "all")]
         mc = [dict(t2l2, max_ops=6)]
         dev = []
-        rnd = [(4, 4, 1500), (3, 2, 1500)]
+        rnd = [(4, 12, 2000), (3, 4, 1500)]
     else:
         plan = [(dict(t2l2, max_ops=7), "t2l2o7", 4, "moving"),
                 ({"towers": ["t1", "t2", "t3"], "locators": ["l1", "l2"], "max_renew": 1, "max_ops": 5}, "t3l2o5", 0, "all"),
@@ -400,7 +407,7 @@ def main(tier, replay_path=None):
         mc = [dict(t2l2, max_ops=8),
               {"towers": ["t1", "t2", "t3"], "locators": ["l1", "l2"], "max_renew": 1, "max_ops": 6}]
         dev = [dict(t2l2, max_ops=4)]
-        rnd = [(4, 4, 4000), (3, 2, 4000), (5, 3, 4000), (2, 5, 4000), (4, 4, 4000), (3, 3, 4000), (6, 2, 4000), (4, 6, 4000)]
+        rnd = [(4, 12, 4000), (3, 6, 4000), (5, 10, 4000), (2, 20, 4000), (4, 12, 4000), (3, 3, 4000), (6, 8, 4000), (9, 12, 4000)]
     jobs = []
     try:
         # the rigs run while TLC model-checks the larger bounds
